@@ -103,7 +103,9 @@ def qbits_scenario(prop, kn, sym, alpha_kind, use_ste):
       mx = Q.method(ip, q, "max")
       mn = Q.method(ip, q, "min")
       if mx[0] == "return" and mn[0] == "return":
-        s.claim("enclosed", z3.And(Q.num_value(mn[1]) <= ret, ret <= Q.num_value(mx[1])))
+        # composed with the `code` clause (proved separately): under ret == spec value
+        hyp = (ret == spec) if npos else z3.BoolVal(True)
+        s.claim("enclosed", z3.Implies(hyp, z3.And(Q.num_value(mn[1]) <= ret, ret <= Q.num_value(mx[1]))))
         if npos:
           s.mono = [(z3.ToReal(k), z3.ToReal(hi), P(integer - n)), (z3.ToReal(lo), z3.ToReal(k), P(integer - n))]
       else:
@@ -192,7 +194,8 @@ def generic_scenario(prop, build, idem=True, enclosed=True):
       mn = Q.method(ip, q, "min")
       if mx[0] == "return" and mn[0] == "return":
         s.mono.extend([(kr, R(hi), sp["unit"]), (R(lo), kr, sp["unit"])])
-        s.claim("enclosed", z3.And(Q.num_value(mn[1]) <= ret, ret <= Q.num_value(mx[1])))
+        s.claim("enclosed", z3.Implies(ret == sp["value"],
+                                       z3.And(Q.num_value(mn[1]) <= ret, ret <= Q.num_value(mx[1]))))
       else:
         s.info["raised"] = "max/min raised: %s %s" % (mx[1], mn[1])
         s.claim("enclosed", False)
